@@ -88,6 +88,38 @@ def holdsStream (me : Bytes) (evs : List Ev) (tail : Tail) (ps : List Nat) (o : 
   checkReads eofOk (!eofOk) e.1 ps o.reads &&
   (!eofOk || !o.rbroken) && !o.wbroken
 
+/-- Shape of a sequence of read results, whatever was owed: at most `p` bytes, at least one when `p > 0`,
+end-of-stream for ever once returned, nothing after an error. -/
+def wellShaped : List Nat → List RRes → Bool
+  | _, [] => true
+  | [], _ :: _ => false
+  | p :: ps, .data d :: rs => decide (d.length ≤ p) && (p == 0 || !d.isEmpty) && wellShaped ps rs
+  | _ :: _, .eof :: rs => rs.all (· == .eof)
+  | _ :: _, .err _ :: rs => rs.isEmpty
+  | _ :: _, .fuel :: _ => false
+
+/-- **The stream property on a connection that was cut at an arbitrary byte offset** (a transport
+fault, outside what the property promises about completeness): the sender's `Write`s were all
+answered as on an intact connection, and what the receiver's `Read` calls returned is still a prefix
+of the bytes written for the tunnel — unchanged, in order, nothing of a foreign or half-received
+frame —, in well-shaped results. -/
+def holdsCut (me : Bytes) (evs : List Ev) (ps : List Nat) (o : StObs) : Bool :=
+  o.writes == expectedWrites true evs &&
+  (delivered o.reads).isPrefixOf (expected me evs).1 &&
+  wellShaped ps o.reads && !o.wbroken
+
+/-- **Both directions on an observation**: the forward phase satisfies the stream property; in the
+reverse phase (B writes on the stream it has just read from, A reads on the stream it has written to)
+B's writes are accepted iff B had not half-closed before, A is given exactly what B sent for the tunnel
+before B's first close — or an immediate end-of-stream if B had half-closed —, then end-of-stream; A's
+connection is not marked broken and B's flag is what the forward phase left. -/
+def holdsDuplex (me : Bytes) (evs : List Ev) (tail : Tail) (rw : Bool) (ps : List Nat)
+    (rvEvs : List Ev) (rps : List Nat) (o : DxObs) : Bool :=
+  holdsStream me evs tail ps o.fwd &&
+  o.rev.writes == expectedWrites (!rw) rvEvs &&
+  checkReads true false (if rw then [] else (expected me rvEvs).1) rps o.rev.reads &&
+  !o.rev.rbroken && o.rev.wbroken == o.fwd.rbroken
+
 /-! ### Forwarding through a stream (`runBidirectionalForward`) -/
 
 /-- What the two far ends of a forwarded tunnel see. -/
@@ -95,24 +127,55 @@ structure FwObs where
   up : Bytes        -- received by the peer stream until its end-of-stream
   down : Bytes      -- received by the application until its end-of-stream
   done : Bool       -- both saw the end-of-stream (and the forwarder returned)
+  cnt : Option (Nat × Nat)   -- BytesSentCounter / BytesReceivedCounter when the config has them
+  closes : Option Nat        -- calls of LocalConnCloser.Close when the config has one
 deriving DecidableEq, Repr
 
 /-- The forwarder seen through the stream model: upload = the application's bytes handed to
 `FrameStream.Write` in pieces `ups` (as `io.Copy` reads them), then `CloseWrite` (half-close); the peer
 reads to end-of-stream, then writes `down` and `Close`s; the other direction is a second stream run.
-Reads use frame-sized buffers, one more than there can be frames. -/
-def runForward (me : Bytes) (ups : List Bytes) (down : Bytes) : FwObs :=
-  let nu := ups.length + ups.flatten.length / crossnode.MaxFrameSize + 2
-  let nd := down.length / crossnode.MaxFrameSize + 3
-  let u := runStream none me (ups.map .write ++ [.closeWrite]) (fun b => [b]) .eof false
-    (List.replicate nu crossnode.MaxFrameSize)
-  let d := runStream none me [.write down, .close] (fun b => [b]) .eof false
-    (List.replicate nd crossnode.MaxFrameSize)
-  ⟨delivered u.reads, delivered d.reads, u.reads.contains .eof && d.reads.contains .eof⟩
+Reads use frame-sized buffers, one more than there can be frames (`frameBound`). -/
+def runForward (me : Bytes) (ups : List Bytes) (down : Bytes) (ct cl : Bool) : FwObs :=
+  let uev := ups.map Ev.write ++ [.closeWrite]
+  let dev := [Ev.write down, .close]
+  let u := runStream none me uev (fun b => [b]) .eof false
+    (List.replicate (frameBound uev + 1) crossnode.MaxFrameSize)
+  let d := runStream none me dev (fun b => [b]) .eof false
+    (List.replicate (frameBound dev + 1) crossnode.MaxFrameSize)
+  ⟨delivered u.reads, delivered d.reads, u.reads.contains .eof && d.reads.contains .eof,
+   -- the counting wrapper sees what is read from / written to the local connection
+   if ct then some ((delivered u.reads).length, (delivered d.reads).length) else none,
+   -- closeAll runs under a sync.Once (not modelled: the model has no second closer)
+   if cl then some 1 else none⟩
 
 /-- **Forwarding on an observation**: everything the application sent before its half-close reached the
-peer, the peer's answer reached the application, both followed by end-of-stream. -/
-def holdsFw (up down : Bytes) (o : FwObs) : Bool := o.up == up && o.down == down && o.done
+peer, the peer's answer reached the application, both followed by end-of-stream; the traffic counters
+(if any) show exactly those byte counts and the local connection's closer (if any) ran exactly once. -/
+def holdsFw (up down : Bytes) (ct cl : Bool) (o : FwObs) : Bool :=
+  o.up == up && o.down == down && o.done &&
+  o.cnt == (if ct then some (up.length, down.length) else none) &&
+  o.closes == (if cl then some 1 else none)
+
+/-- **TargetReady payload on an observation**: for a node id without '|' the listener gets back exactly
+the full tunnel id (all of it, not 16 bytes, whatever bytes it contains) and the node id the sender put in. -/
+def holdsTm (tid node : Bytes) (o : Option (Bytes × Bytes)) : Bool :=
+  node.contains bar || o == some (tid, node)
+
+/-- What the listener does with a first frame of type `ty`, header id string `hid`, TargetReady message
+`(tid, node)`, when the manager's bridge is for `bridge`: forward iff it is a TargetReady for that bridge
+(the full id of the message, or the header id when the message carries none). -/
+def lsForwards (tid node bridge : Bytes) (ty : Nat) (hid : Bytes) : Bool :=
+  ty == crossnode.FrameTypeTargetReady && !node.contains bar &&
+  (if tid.isEmpty then tunnelIDToString (tunnelIDFromString hid) else tid) == bridge
+
+/-- **The listener on an observation**: a TargetReady connection for the bridge's tunnel forwards EXACTLY
+the bytes that follow the first frame — from the first byte on, also when they arrive in the same
+segment as the frame — to the source side, and the answer back; any other first frame forwards nothing.
+`o = (forwarded?, bytes the source side got, bytes the target side got)`. -/
+def holdsLs (tid node bridge : Bytes) (ty : Nat) (hid pay back : Bytes) (o : Bool × Bytes × Bytes) : Bool :=
+  if node.contains bar then true      -- outside the hypothesis of the message codec
+  else if lsForwards tid node bridge ty hid then o.1 && o.2.1 == pay && o.2.2 == back
+  else !o.1 && o.2.1.isEmpty
 
 /-! ### Decoder -/
 
